@@ -148,3 +148,40 @@ func (m *Machine) fmtToWriter(name string, args []Value) Value {
 	b := m.convert(out, tyString, types.NewSlice(types.Typ[types.Byte]))
 	return m.callFn(fn, []Value{w.v, b})
 }
+
+// fmtRenderErrors: formatting is not modelled, but fmt does call the Error method of an operand
+// that is an error. For operands whose type is defined in the repository that call is made
+// (result ignored), so that an Error method that formats its own receiver - unbounded recursion,
+// a fatal stack overflow natively - is reported instead of going unnoticed.
+func (m *Machine) fmtRenderErrors(args []Value) {
+	if len(args) == 0 {
+		return
+	}
+	sl, ok := args[len(args)-1].(Slice)
+	if !ok || sl.arr == nil {
+		return
+	}
+	for _, o := range (*sl.arr)[sl.off : sl.off+sl.len] {
+		i, ok := o.(Iface)
+		if !ok || i.t == nil {
+			continue
+		}
+		if _, opaque := i.v.(*Opaque); opaque {
+			continue
+		}
+		if !strings.Contains(i.t.String(), modPath) {
+			continue
+		}
+		fn := m.prog.LookupMethod(i.t, nil, "Error")
+		if fn == nil || fn.Signature.Params().Len() != 0 || fn.Signature.Results().Len() != 1 {
+			continue
+		}
+		m.errorDepth++
+		if m.errorDepth > 6 {
+			m.errorDepth = 0
+			m.require(False, "panic", "unbounded recursion: the Error method of "+i.t.String()+" formats its own receiver (fatal stack overflow)")
+		}
+		m.callFn(fn, []Value{i.v})
+		m.errorDepth--
+	}
+}
